@@ -37,6 +37,7 @@ Json Plan::to_json() const {
   w.set("clock_step_at_ms", (long long) this->w.k.clock_step_at_ms).set("clock_step_ms", (long long) this->w.k.clock_step_ms);
   w.set("low_fds", this->w.low_fds);
   w.set("sigpipe", this->w.sigpipe);
+  w.set("sa_flags", this->w.sa_flags);
   Json ex = Json::arr();
   for (auto &e : this->w.extra) ex.push(Json::arr().push(e.fd).push(e.kind).push(e.cloexec ? 1 : 0));
   w.set("extra_fds", ex);
@@ -67,7 +68,7 @@ Json Plan::to_json() const {
     o.set("in", redir_j(s.in)); o.set("out", redir_j(s.out)); o.set("err", redir_j(s.err));
     o.set("parent", s.parent); o.set("discard", s.discard); o.set("file", s.file); o.set("path", s.path);
     o.set("env_behavior", s.env_behavior); o.set("env_null", s.env_null); o.set("env_extra", strs_j(s.env_extra));
-    o.set("wd", s.wd); o.set("prog", s.prog); o.set("args", strs_j(s.args)); o.set("argv_null", s.argv_null);
+    o.set("wd", s.wd); o.set("prog", s.prog); o.set("args", strs_j(s.args)); o.set("argv_null", s.argv_null); o.set("argv_empty", s.argv_empty);
     o.set("input_size", (long long) s.input_size); o.set("input_bad", s.input_bad);
     o.set("deadline", s.deadline);
     Json sp = Json::arr(); for (int i = 0; i < 6; i++) sp.push(s.stop[i]); o.set("stop", sp);
@@ -116,6 +117,7 @@ bool Plan::from_json(const Json &j, Plan *p) {
   p->w.k.clock_step_ms = (int64_t) w.num("clock_step_ms", 0);
   p->w.low_fds = (int) w.num("low_fds", 7);
   p->w.sigpipe = (int) w.num("sigpipe", 0);
+  p->w.sa_flags = w.num("sa_flags", 0) != 0;
   const Json &ex = w.at("extra_fds");
   for (size_t i = 0; i < ex.size(); i++) { ExtraFd e; e.fd = (int) ex[i][0].as_int(); e.kind = (int) ex[i][1].as_int(); e.cloexec = ex[i][2].as_int() != 0; p->w.extra.push_back(e); }
   p->w.cwd_depth = (int) w.num("cwd_depth", 1);
@@ -149,7 +151,7 @@ bool Plan::from_json(const Json &j, Plan *p) {
     s.in = redir_p(o.at("in")); s.out = redir_p(o.at("out")); s.err = redir_p(o.at("err"));
     s.parent = o.num("parent") != 0; s.discard = o.num("discard") != 0; s.file = (int) o.num("file"); s.path = (int) o.num("path");
     s.env_behavior = (int) o.num("env_behavior"); s.env_null = o.num("env_null", 1) != 0; s.env_extra = strs_p(o.at("env_extra"));
-    s.wd = (int) o.num("wd"); s.prog = (int) o.num("prog"); s.args = strs_p(o.at("args")); s.argv_null = o.num("argv_null") != 0;
+    s.wd = (int) o.num("wd"); s.prog = (int) o.num("prog"); s.args = strs_p(o.at("args")); s.argv_null = o.num("argv_null") != 0; s.argv_empty = o.num("argv_empty") != 0;
     s.input_size = o.num("input_size", -1); s.input_bad = o.num("input_bad") != 0;
     s.deadline = (int) o.num("deadline");
     const Json &sp = o.at("stop"); for (size_t k = 0; k < 6 && k < sp.size(); k++) s.stop[k] = (int) sp[k].as_int();
